@@ -3,7 +3,8 @@
 in-memory overlay and runs ALL checks; every check must stay silent. Exit 0 = no false alarm."""
 import json, os, subprocess, sys, tempfile, glob, concurrent.futures
 here = os.path.dirname(os.path.abspath(__file__))
-repo = sys.argv[1] if len(sys.argv) > 1 else "/repo"
+repo = sys.argv[1] if len(sys.argv) > 1 and sys.argv[1].startswith("/") else "/repo"
+only = [a for a in sys.argv[1:] if not a.startswith("/")]  # optional: names of edits to run
 trsa = os.path.join(here, "bin", "trsa")
 def run(path):
     sd = json.load(open(path)); name = os.path.basename(path)[:-5]
@@ -27,7 +28,10 @@ def run(path):
     alarms = [l[:220] for l in q.stdout.splitlines() if l.startswith("VIOLATED") or l.startswith("NOT-ESTABLISHED")]
     return name, ("FALSE-ALARM" if alarms else "silent"), alarms[:4]
 with concurrent.futures.ThreadPoolExecutor(max_workers=6) as ex:
-    res = list(ex.map(run, sorted(glob.glob(os.path.join(here, "seeds", "benign", "*.json")))))
+    files = sorted(glob.glob(os.path.join(here, "seeds", "benign", "*.json")))
+    if only:
+        files = [f for f in files if os.path.basename(f)[:-5] in only]
+    res = list(ex.map(run, files))
 bad = 0
 for name, st, info in res:
     print("%-12s %s %s" % (st, name, info if st != "silent" else ""))
